@@ -507,3 +507,13 @@ def _same_modulo_refs(a, b):
     import re
     strip = lambda s: re.sub(r'\[[^\]]*\]', '[]', s)
     return strip(a) == strip(b)
+
+
+_run_before_cache_rules = run
+
+
+def run(ctx):
+    _run_before_cache_rules(ctx)
+    # an atom named through the cache is the atom an earlier header entered (C14 rules re-run)
+    from .c14 import cache_threading
+    cache_threading(ctx, 'C03.9-cache-kept')
